@@ -8,16 +8,30 @@ DetectingLocks, so a call that can never return is decided at the lock (no timeo
 user callback raised; an icontract invariant keeps the length in [0, max]. Sessions run silent and
 verbose, with / without / with raising callbacks, as twins sharing one process, as 20 000+-operation
 histories, and are replayed without the read-only calls / with the other verbosity (differential).
+
+Round 4: the process time zone is switched per session (fixed offsets west / east of UTC and zones whose local clock steps back),
+public settings are re-assigned mid-session (the obligation follows the current value), settings / costs come as non-bool falsy /
+truthy values, bools, floats and Fractions, handlers raise a range of exception types or are falsy callables, lifecycles are duplicated
+(copy / deepcopy / pickle) and the session continues on the duplicate, every public method is called in every calling form, verbose
+output goes to a strict UTF-8 stream, locks the object replaces are re-wrapped at the assignment (rv/c09_locks.py), and a small
+sweep runs in a child interpreter started with -O.
 """
 import contextlib
+import copy
 import inspect
+import io
+import json
 import os
+import pickle
+import subprocess
 import sys
 import time as _time
 from datetime import timedelta
+from fractions import Fraction
 
 from rv import core, sched
-from rv.locks import DetectingLock, WouldHang, wrap_all_locks
+from rv.c09_locks import LockGuard, QuickDetectingLock
+from rv.locks import WouldHang
 from rv.vclock import VClock, patched
 
 # naive local datetimes are subtracted by the code under test: keep multi-day virtual jumps free of DST steps
@@ -29,7 +43,8 @@ PID = "C09"
 LEVEL = "exploration"
 TECHNIQUE = ("runtime monitoring: phase-change callback stream + polled state judged against the legal-transition relation per operation, "
              "virtual clock (ms grid), DetectingLock hang oracle (also after raising user callbacks), icontract length invariant, "
-             "differential replays (no read-only calls / other verbosity), twin instances, long histories")
+             "differential replays (no read-only calls / other verbosity), twin instances, long histories, per-session process time zone (tzset), "
+             "mid-session re-configuration, duplicates, lock guard re-wrapping replaced locks, -O child interpreter")
 RULE = ("configs: max_operations 1..12, error_threshold 1..4, renewal on/off, lifetime {None,1h}, idle {None,5min}; sequences over "
         "{start, tick(0|1|2|5), record_error, heartbeat, check_timeouts, renew(None|0|1|3, reset_errors), trigger_apoptosis, terminate, reset, "
         "advance clock (1min|6min|61min)}: depth <= 3 (quick: 1/8 slice per run, rotated by seed) / <= 4 (thorough: 1/4 slice per run, rotated by seed) swept on a config grid, each also without a leading start(); depth 5-7 sampled; "
@@ -37,8 +52,17 @@ RULE = ("configs: max_operations 1..12, error_threshold 1..4, renewal on/off, li
         "extreme / fractional / non-finite costs and amounts, lifetime {3.6 s .. 48 h, 0} and idle {0.3 s .. 3 d, 0} limits with advances exactly on / 1 ms around the limit, "
         "whole days (+ remainder below the limit), 30 and 400 days; twin instances (one possibly default-constructed) used alternately; "
         "2 (quick) / 6 (thorough) sessions of > 20 000 operations on one instance; a quarter of the sampled sessions replayed without polling and with the other verbosity; "
+        "round 4: process time zone per session (UTC, fixed offsets west/east, zones whose local clock steps back within the session; idle-focused scenarios with every stamping operation as last activity); "
+        "public settings (allow_renewal, silent, error_threshold, max_operations >= current length, max_lifetime, idle_timeout, handlers, class thresholds) re-assigned mid-session; "
+        "non-bool falsy/truthy flags, bool/float/Fraction numbers; handler exception types incl. a BaseException; falsy-callable handlers; every calling form (defaults, keywords, positional constructor); "
+        "copy/deepcopy/pickle mid-session (continue on the duplicate); hostile apoptosis reasons with verbose output on a strict UTF-8 stream; locks re-wrapped when the object replaces them; "
+        "depth-2 sweep + 400 sampled sessions in a child interpreter started with -O; "
         "non-trivial = visits >= 3 phases; distinct = (phase trace, return-value trace)")
-ASSUMPTIONS = ["non-negative tick costs and renewal amounts", "reset() re-creates the lifecycle: absorbing-ness of TERMINATED is judged between resets",
+ASSUMPTIONS = ["non-negative tick costs and renewal amounts", "settings follow their CURRENT value: allow_renewal / silent by truthiness, limits by the timedelta assigned; "
+               "max_operations is only re-assigned to values >= the current remaining length, and the Hayflick bound between two renewals is the largest max_operations in force in between",
+               "elapsed time is real (UTC) time: neither the process time zone nor a step of the local clock changes what a time limit means",
+               "a falsy callable assigned as a handler need not be called (the statement says nothing about handler delivery); everything else still holds",
+               "copy / deepcopy / pickle of a lifecycle may be unsupported (raise); where one succeeds the duplicate starts in the original's phase and length and obeys the same obligations", "reset() re-creates the lifecycle: absorbing-ness of TERMINATED is judged between resets",
                "TERMINATED->TERMINATED / APOPTOTIC->APOPTOTIC announcements are not moves; renew in APOPTOTIC may return True if the phase does not change",
                "idle time is measured from the latest start/tick/heartbeat/renew",
                "a time limit is reached when elapsed >= limit; a limit of 0 / None is 'off' (no obligation)",
@@ -63,6 +87,8 @@ LONG_R = {"quick": (3, 1004), "thorough": (3, 1004, 2005, 3006, 4007, 5008)}
 LONG_OPS = {"quick": 24000, "thorough": 30000}
 
 
+
+
 class InvariantBroken(Exception):
     pass
 
@@ -71,16 +97,102 @@ class HandlerBoom(Exception):
     """Raised by the workload's own on_phase_change / on_senescence handlers."""
 
 
-class _Sink:
-    def write(self, s):
-        return len(s)
-
-    def flush(self):
-        pass
+class HandlerAbort(BaseException):
+    """A handler failure that is not an Exception (what a cancelled / interrupted handler looks like)."""
 
 
-_SINK = _Sink()
+# exception types a user's handler may raise (a library-side `except <Type>` must not change the lifecycle's obligations)
+EXC_TYPES = {"HandlerBoom": HandlerBoom, "TypeError": TypeError, "TimeoutError": TimeoutError, "KeyError": KeyError,
+             "AssertionError": AssertionError, "OSError": OSError, "ValueError": ValueError, "RuntimeError": RuntimeError,
+             "AttributeError": AttributeError, "HandlerAbort": HandlerAbort}
+
+
+class FalsyFlag:
+    """Duck-typed 'false' setting (what a numpy.bool_(False) or a config wrapper looks like)."""
+
+    def __bool__(self):
+        return False
+
+    def __repr__(self):
+        return "FalsyFlag()"
+
+
+class TruthyFlag:
+    def __bool__(self):
+        return True
+
+    def __repr__(self):
+        return "TruthyFlag()"
+
+
+class FalsyCallable:
+    """A handler object that is callable but falsy (a callable collection of listeners that happens to be empty-looking)."""
+
+    def __init__(self, fn):
+        self.fn = fn
+
+    def __call__(self, *a, **k):
+        return self.fn(*a, **k)
+
+    def __len__(self):
+        return 0
+
+    def __repr__(self):
+        return "FalsyCallable()"
+
+
+class StrSub(str):
+    pass
+
+
+FALSY = [0, None, "", 0.0, FalsyFlag(), (), Fraction(0), False]
+TRUTHY = [1, "no", 2.5, TruthyFlag(), (0,), Fraction(1, 3), True]
+# POSIX TZ strings (no tzdata needed). Fixed offsets: the local clock never steps; west of Greenwich utcnow() lies in the local future.
+ZONES_WEST = ["EST5", "PST8", "AZOT1", "HST10", "XWW12", "NST3:30"]
+ZONES_EAST = ["JST-9", "IST-5:30", "XEE-14", "CET-1"]
+
+
+def _utc_ts(y, mo, d, h, mi=0):
+    import calendar
+    return float(calendar.timegm((y, mo, d, h, mi, 0)))
+
+
+# zones with daylight saving + the UTC instant at which their local clock steps BACK by one hour
+ZONES_DST = [("EST5EDT,M3.2.0,M11.1.0", _utc_ts(2023, 11, 5, 6)), ("CET-1CEST,M3.5.0,M10.5.0/3", _utc_ts(2023, 10, 29, 1)),
+             ("AEST-10AEDT,M10.1.0,M4.1.0/3", _utc_ts(2024, 4, 6, 16)), ("PST8PDT,M3.2.0,M11.1.0", _utc_ts(2024, 11, 3, 9))]
+HOSTILE = ["a\ud800b", "nul\x00byte", "{0}{}%s%(x)d\n\r", "(.*)[+?^$|\\", "", "x" * 300, StrSub("sub"), "\U0001f9ec\u200d"]
+# every calling form of the operations (defaults, keywords, positionals) + hostile / default apoptosis reasons
+KOPS = [("tick",), ("tick",), ("tick", 1, "kw"), ("tick", 2, "kw"), ("renew",), ("renew",), ("renew", None, True, "kw"), ("renew", 2, False, "kw"),
+        ("renew", 1, True, "pos"), ("renew", 3, True, "amount-only"), ("renew", None, False, "reset-only"),
+        ("trigger_apoptosis", HOSTILE[0]), ("trigger_apoptosis", HOSTILE[1], "kw"), ("trigger_apoptosis", HOSTILE[2]), ("trigger_apoptosis", HOSTILE[3], "kw"),
+        ("trigger_apoptosis", HOSTILE[4]), ("trigger_apoptosis", HOSTILE[5]), ("trigger_apoptosis", HOSTILE[6], "kw"), ("trigger_apoptosis", HOSTILE[7]),
+        ("reads",), ("reads",), ("tick", Fraction(1, 2)), ("tick", Fraction(3, 1)), ("renew", Fraction(5, 2), False), ("tick", False), ("renew", True, True)]
+# public settings re-assigned mid-session
+SET_OPS = ([("set", "allow_renewal", v) for v in FALSY + TRUTHY] + [("set", "allow_renewal", False)] * 4 + [("set", "allow_renewal", True)] * 4 +
+           [("set", "silent", v) for v in (True, False, 0, 1, "", "quiet", None)] +
+           [("set", "error_threshold", v) for v in (1, 2, 3, 4, 0, True, 2.5, 10 ** 9)] +
+           [("set_max", how) for how in ("double", "plus1", "to_len", "same", "float", "big")] +
+           [("set", "max_lifetime", v) for v in (None, timedelta(0), timedelta(hours=1), timedelta(seconds=3, milliseconds=600), timedelta(days=2))] +
+           [("set", "idle_timeout", v) for v in (None, timedelta(0), timedelta(minutes=5), timedelta(milliseconds=300), timedelta(days=1, hours=1))] +
+           [("set_cb", w, m) for w in ("on_phase_change", "on_senescence") for m in ("none", "rec", "rec", "falsy")] +
+           [("set", "SENESCENCE_THRESHOLD", v) for v in (0, 0.1, 0.5)] + [("set", "ERROR_SENESCENCE_RATE", v) for v in (0.5, 1.0, 2)] +
+           [("set", "WARNING_THRESHOLD", v) for v in (0.2, 0.9)])
+DUP_OPS = [("dup", "copy"), ("dup", "copy"), ("dup", "deepcopy"), ("dup", "pickle")]
+META = ("set", "set_max", "set_cb", "dup", "reads")
+
+
+class _NullRaw(io.RawIOBase):
+    def writable(self):
+        return True
+
+    def write(self, b):
+        return len(b)
+
+
+# verbose lifecycles print: stdout is a STRICT UTF-8 text stream for the whole session (a lone surrogate raises there, it would not in StringIO)
+_SINK = io.TextIOWrapper(io.BufferedWriter(_NullRaw()), encoding="utf-8", errors="strict", write_through=True)
 _XIDS = frozenset(id(x) for x in XOPS)
+_CALLED = set()
 _INV = {"n": 0}
 _Monitored = None
 
@@ -132,7 +244,7 @@ def plan(tier):
     extra = 9000 if tier == "quick" else 300000
     q = tier == "quick"
     return {"cases": nsweep + extra, "shards": 8 if tier == "quick" else 14, "min_nontrivial": 300,
-            "timeout": 600 if tier == "quick" else 6000,   # generous: the machine may be shared (never a verdict)
+            "timeout": 1500 if tier == "quick" else 6000,   # generous: the machine may be shared (never a verdict)
             "require": {"calls": 50000, "hops_judged": 10000, "ticks_in_terminal_phase": 1000, "unstarted_first_ticks": 500,
                         "timeouts_forced": 40, "error_limit_forced": 500, "renewals_refused": 500, "lock_acquisitions": 50000,
                         "invariant_evaluations": 100000, "thread_schedules": 1000, "thread_outcomes_judged": 1000, "status_reads_from_callbacks": 5000,
@@ -142,7 +254,89 @@ def plan(tier):
                         "verbose_sessions": 500, "no_callback_sessions": 100, "handler_raised_calls": 100, "calls_after_handler_raised": 100,
                         "extreme_argument_calls": 200, "twin_sessions": 100, "default_constructed_sessions": 10,
                         "replays_without_reads": 200, "replays_other_verbosity": 200,
-                        "long_session_calls": 8000 if q else 30000, "max:calls_on_one_instance": 20000}}
+                        "long_session_calls": 8000 if q else 30000, "max:calls_on_one_instance": 20000,
+                        # round 4
+                        "nonutc_zone_sessions": 300, "timeouts_forced_in_nonutc_zone": 60, "idle_limit_forced_in_nonutc_zone_after:heartbeat": 20,
+                        "idle_limit_forced_in_nonutc_zone_after:tick": 20, "idle_limit_forced_in_nonutc_zone_after:start": 5, "local_clock_back_steps": 10,
+                        "timeouts_forced_across_local_back_step": 3, "settings_reassigned": 300, "handlers_reassigned": 50,
+                        "nonbool_renewal_flag_sessions": 100, "nonbool_falsy_renewals_refused": 40, "handler_exception_type_sessions": 30,
+                        "calling_form_calls": 200, "duplicates_continued": 20, "duplicates_unsupported": 0,
+                        "optimized_interpreter_calls": 3000}}
+
+
+def child_probe():
+    """Runs in a child interpreter started with -O (assert statements compiled away, icontract switched off): the refusal
+    obligations must not rest on an assert. A depth-2 sweep over a few configurations + a few hundred sampled sessions."""
+    seed = int(os.environ.get("C09_CHILD_SEED", "0") or 0)
+    ctx = core.Ctx(PID, "quick", seed)
+    cfgs = [(3, 2, True, None, None), (2, 1, False, 1.0, 5.0), (1, 1, 0, None, None), (10, 2, None, 1.0, 5.0), (2, 2, "", None, None), (2, 1, 1, None, 5.0)]
+    n = 0
+    for ci, cfg in enumerate(cfgs):
+        for idx in range(sweep_total(2)):
+            for lead in (True, False):
+                seq = decode(idx, 2)
+                ctx.case = ["python -O", ci, idx, lead]
+                drive(ctx, n, cfg, ([("start",)] + seq) if lead else seq, dict(BASE_OPTS, silent=(n % 4 != 0)))
+                n += 1
+    for k in range(400):
+        rng = ctx.rng("child", k)
+        cfg = (rng.randint(1, 12), rng.randint(1, 4), rng.choice([True, False, 0, None, 1]), rng.choice([None, 1.0]), rng.choice([None, 5.0]))
+        seq = rng.choices(OPS + KOPS[:11], weights=OPS_W + [1] * 11, k=rng.randint(4, 9))
+        ctx.case = ["python -O", "sampled", k]
+        drive(ctx, n, cfg, seq, random_opts(rng))
+        n += 1
+    out = ctx.dump()
+    out["optimize"] = sys.flags.optimize
+    out["sessions"] = n
+    sys.__stdout__.write("\nC09-CHILD-RESULT " + json.dumps(out) + "\n")
+    sys.__stdout__.flush()
+
+
+def extra_parent(ctx):
+    """Parent-side work while the shards run: the -O child. A child that cannot be started / does not finish is INCONCLUSIVE."""
+    env = dict(os.environ, C09_CHILD_SEED=str(ctx.seed))
+    try:
+        p = subprocess.run([sys.executable, "-O", "-B", "-c", "import checks.c09_lifecycle as m; m.child_probe()"], cwd=core.VERIF, env=env,
+                           capture_output=True, text=True, timeout=900)
+    except (OSError, subprocess.TimeoutExpired) as e:
+        ctx.inconclusive("the -O child interpreter did not finish: %r" % (e,))
+        return
+    lines = [ln for ln in p.stdout.splitlines() if ln.startswith("C09-CHILD-RESULT ")]
+    if p.returncode != 0 or not lines:
+        ctx.inconclusive("the -O child interpreter failed (rc=%s): %s" % (p.returncode, (p.stderr or p.stdout)[-800:]))
+        return
+    part = json.loads(lines[-1][len("C09-CHILD-RESULT "):])
+    if part.get("optimize", 0) < 1:
+        ctx.inconclusive("the child interpreter did not run optimized")
+        return
+    ctx.counters["optimized_interpreter_calls"] = part["counters"].get("calls", 0)
+    ctx.counters["optimized_interpreter_sessions"] = part.get("sessions", 0)
+    ctx.counters["optimized_interpreter_renewals_refused"] = part["counters"].get("renewals_refused", 0)
+    for v in part["violations"]:
+        ctx.violations.append(dict(v, what=v["what"] + " [in a child interpreter started with -O]"))
+    for k, c in part["violation_counts"].items():
+        ctx.violation_counts[k] = ctx.violation_counts.get(k, 0) + c
+
+
+def teardown_shard(ctx):
+    """Informational: which public methods / keyword parameters of the anchored class this shard never called."""
+    from operon_ai.state.telomere import Telomere
+    pub = sorted(n for n in dir(Telomere) if not n.startswith("_") and callable(getattr(Telomere, n)))
+    ctx.maxc("public_methods", len(pub))
+    never = [n for n in pub if n not in _CALLED]
+    kw_never = []
+    for m in pub:
+        try:
+            params = [q for q in inspect.signature(getattr(Telomere, m)).parameters if q != "self"]
+        except (TypeError, ValueError):
+            continue
+        for q in params:
+            if not any(c.startswith(m + "(") and (q + "=") in c for c in _CALLED):
+                kw_never.append("%s(%s=)" % (m, q))
+    ctx.maxc("public_methods_never_called_by_some_shard", len(never))
+    ctx.maxc("keyword_parameters_never_passed_by_some_shard", len(kw_never))
+    for name in never + kw_never:
+        ctx.count("never_called:%s" % name)
 
 
 def run_case(ctx, n):
@@ -158,8 +352,13 @@ def run_case(ctx, n):
         seq = decode(idx, depth)
         if half == 0:
             seq = [("start",)] + seq
-        # a fifth of the swept sequences run verbosely (the logging branches are different code)
-        return drive(ctx, n, SWEEP_CFG[ci], seq, dict(BASE_OPTS, silent=(n % 5 != 3)))
+        # a fifth of the swept sequences run verbosely (the logging branches are different code); a third of the sweep over the
+        # configurations with time limits runs in a process zone away from UTC (fixed offset, west and east)
+        o = dict(BASE_OPTS, silent=(n % 5 != 3))
+        if SWEEP_CFG[ci][3] is not None and n % 3 == 1:
+            zones = ZONES_WEST + ZONES_EAST
+            o["tz"] = (zones[(n // 3) % len(zones)], None)
+        return drive(ctx, n, SWEEP_CFG[ci], seq, o)
     rng = ctx.rng(n)
     r = n - nsweep
     if r in LONG_R[ctx.tier]:
@@ -184,12 +383,13 @@ def run_case(ctx, n):
             seq = rng.choices(topS, weights=[3, 4, 2, 4, 3, 2, 1, 1, 1, 1], k=rng.randint(3, 8))
         else:
             ctx.count("timescale_scenarios")
-            cfg, seq = timescale_scenario(rng, cfg)
+            cfg, seq = timescale_scenario(rng, cfg) if rng.random() < 0.6 else idle_focus_scenario(rng, cfg)
     elif orng.random() < 0.25:
         # arithmetic-boundary arguments mixed into the sequence
         seq = list(seq)
         for _ in range(orng.randint(1, 3)):
             seq.insert(orng.randint(0, len(seq)), orng.choice(XOPS))
+    cfg, seq, opts = round4_variation(ctx.rng("r4", n), cfg, list(seq), opts, timed=(n % 4 == 2))
     if orng.random() < 0.12:
         return twin_case(ctx, n, cfg, seq, opts, orng)
     ok = drive(ctx, n, cfg, seq, opts)
@@ -197,7 +397,61 @@ def run_case(ctx, n):
         differential(ctx, n, cfg, seq, opts, ok)
 
 
-BASE_OPTS = {"silent": True, "callbacks": "both", "raise_on": frozenset(), "raise_sen": False, "ctor": "full"}
+BASE_OPTS = {"silent": True, "callbacks": "both", "raise_on": frozenset(), "raise_sen": False, "ctor": "full", "exc": "HandlerBoom", "tz": None}
+
+
+def round4_variation(vr, cfg, seq, opts, timed):
+    """What round 3 still kept constant: the process time zone, the settings after construction, the TYPES of settings and
+    arguments, the calling forms, the handler's exception type / truthiness, duplication of the object."""
+    max_ops, err_th, renewal, life, idle = cfg
+    # ---- process time zone (time scenarios: half of them; other sessions: a tenth)
+    zr = vr.random()
+    if timed:
+        if zr < 0.22:
+            opts["tz"] = (vr.choice(ZONES_WEST), None)
+        elif zr < 0.42:
+            opts["tz"] = (vr.choice(ZONES_EAST), None)
+        elif zr < 0.57:
+            # a zone whose local clock steps back one hour, the session starting 0-90 minutes (or a few days) before the step
+            z, back = vr.choice(ZONES_DST)
+            lead = vr.choice([vr.randint(0, 5400), vr.randint(0, 5400), vr.randint(0, 3 * 86400)])
+            opts["tz"] = (z, back - lead)
+    elif zr < 0.1:
+        opts["tz"] = (vr.choice(ZONES_WEST + ZONES_EAST), None)
+    if timed and opts.get("tz") and vr.random() < 0.6:
+        # every stamping operation gets its turn as the LAST activity before an idle period (each one reads the clock on its own)
+        adv = [i for i, o in enumerate(seq) if o[0] in ("advance", "advance_ms")]
+        if adv:
+            seq.insert(vr.choice(adv), vr.choice([("heartbeat",), ("heartbeat",), ("tick", 0), ("tick",), ("start",)]))
+    # ---- value types of the settings
+    if vr.random() < 0.2:
+        renewal = vr.choice(FALSY if not renewal else TRUTHY) if vr.random() < 0.5 else vr.choice(FALSY + TRUTHY)
+    if vr.random() < 0.1:
+        max_ops = vr.choice([True, float(max_ops), Fraction(2 * max_ops + 1, 2), max_ops])
+        err_th = vr.choice([True, err_th + 0.5, Fraction(err_th), err_th])
+        if life:
+            life = vr.choice([True, 1, life])
+        if idle:
+            idle = vr.choice([True, 5, idle])
+    if vr.random() < 0.1:
+        opts["silent"] = vr.choice([0, 1, "", "quiet", None])
+    if vr.random() < 0.05 and opts["ctor"] == "full":
+        opts["ctor"] = "positional"
+    # ---- handlers: falsy callables; exception types
+    if opts["callbacks"] != "none" and vr.random() < 0.06:
+        opts["callbacks"] = "falsy"
+    if (opts["raise_on"] or opts["raise_sen"]) and vr.random() < 0.6:
+        opts["exc"] = vr.choice(sorted(EXC_TYPES))
+    # ---- settings re-assigned mid-session, calling forms, duplicates
+    if vr.random() < 0.3:
+        for _ in range(vr.randint(1, 3)):
+            seq.insert(vr.randint(0, len(seq)), vr.choice(SET_OPS))
+    if vr.random() < 0.25:
+        for _ in range(vr.randint(1, 3)):
+            seq.insert(vr.randint(0, len(seq)), vr.choice(KOPS))
+    if vr.random() < 0.08:
+        seq.insert(vr.randint(0, len(seq)), vr.choice(DUP_OPS))
+    return (max_ops, err_th, renewal, life, idle), seq, opts
 
 
 def random_opts(orng):
@@ -251,6 +505,25 @@ def timescale_scenario(rng, cfg):
     return (cfg[0], max(cfg[1], 2), cfg[2], life, idle), seq
 
 
+def idle_focus_scenario(rng, cfg):
+    """The idle limit decides: (a stamping operation - heartbeat / tick / start - as the last activity, an idle period on, just over,
+    minutes or hours over the limit, check_timeouts, renewal) repeated; no lifetime limit in the way."""
+    idle = rng.choice([5.0, 5.0, 0.005, 0.5, 30.0, 1440.0, 4320.0])
+    L = _limit_ms(None, idle)[0]
+    seq = [rng.choice([("start",), ("tick", 1), ("tick", 0), ("record_error",)])]
+    for _ in range(rng.randint(1, 3)):
+        pre = rng.choice([0, 1, max(1, L // 2), L - 1])
+        if pre:
+            seq.append(("advance_ms", pre))
+        seq.append(rng.choice([("heartbeat",), ("heartbeat",), ("heartbeat",), ("tick", 0), ("tick",), ("tick", 1, "kw")]))
+        if rng.random() < 0.3:
+            seq.append(rng.choice([("reads",), ("set", "silent", True), ("check_timeouts",), ("set_cb", "on_senescence", "rec")]))
+        seq.append(("advance_ms", rng.choice([L, L + 1, L + rng.randrange(1, 3_600_000), L + rng.randrange(3_600_000, 14 * 3_600_000), 2 * L, L + 3_600_000])))
+        seq.append(("check_timeouts",))
+        seq.append(rng.choice([("renew", None, True), ("renew",), ("reset",), ("renew", 2, False)]))
+    return (max(cfg[0], 4), max(cfg[1], 2), True, rng.choice([None, None, None, 10000.0]), idle), seq
+
+
 def allowed_hops(op):
     N, A, S, P, T = "nascent", "active", "senescent", "apoptotic", "terminated"
     if op == "start":
@@ -281,14 +554,38 @@ def composed_hops(op):
 class MsClock:
     """Virtual time kept as an integer number of milliseconds (exact model arithmetic; one float rounding per instant)."""
 
-    def __init__(self):
-        self.v = VClock(base=1_700_000_000.0)
+    def __init__(self, base=1_700_000_000.0):
+        self.v = VClock(base=float(base))
         self.ms = 0
 
     def advance(self, ms):
         assert ms >= 0
         self.ms += int(ms)
         self.v.offset = self.ms / 1000.0
+
+    def utc_offset(self):
+        """Offset of the process's LOCAL clock at the virtual instant (seconds east of UTC)."""
+        return _time.localtime(self.v.base + self.ms / 1000.0).tm_gmtoff
+
+
+@contextlib.contextmanager
+def local_zone(tz):
+    """Switch the process time zone for one session (shards run their cases one after the other); always restored to UTC."""
+    if not tz or not hasattr(_time, "tzset"):
+        yield
+        return
+    os.environ["TZ"] = tz
+    _time.tzset()
+    try:
+        yield
+    finally:
+        os.environ["TZ"] = "UTC"
+        _time.tzset()
+
+
+def _clock_for(opts):
+    tz = opts.get("tz")
+    return MsClock(tz[1]) if tz and tz[1] is not None else MsClock()
 
 
 def _adv_ms(op):
@@ -302,51 +599,137 @@ def _ctor_defaults():
             p["max_lifetime_hours"].default, p["idle_timeout_minutes"].default, p["silent"].default)
 
 
-def make_instance(cls, cfg, opts, hops, holder, ctx=None, raised=None):
-    """Build a lifecycle with the workload's handlers (record the hop, optionally read the public getters, optionally raise)."""
-    max_ops, err_th, renewal, life, idle = cfg
-    reads = opts.get("reads", False)
+def _read_all(t):
+    """Every read-only public call, in every calling form."""
+    _CALLED.update(("get_status", "get_phase", "get_statistics", "is_active", "is_operational", "get_age", "get_events", "get_events(limit=)"))
+    t.get_status(); t.get_phase(); t.get_statistics(); t.is_active(); t.is_operational(); t.get_age()
+    t.get_events(); t.get_events(3); t.get_events(limit=2); t.get_events(0); repr(t)
 
-    def on_change(o, nw):
-        hops.append((o.value, nw.value))
-        if reads and "t" in holder:
-            if ctx is not None:
-                ctx.count("status_reads_from_callbacks")
-            tt = holder["t"]
+
+class Rig:
+    """One real lifecycle + the workload's handlers (record the hop, optionally read the public getters, optionally raise) + the lock
+    guard. Applies the operations, also the ones that only re-configure / duplicate the object."""
+
+    def __init__(self, cls, cfg, opts, ctx=None, lock_factory=QuickDetectingLock):
+        self.cfg, self.opts, self.ctx = cfg, opts, ctx
+        self.hops, self.raised = [], []
+        self.t = None
+        self.exc = EXC_TYPES[opts.get("exc", "HandlerBoom")]
+        self.mode = {"on_phase_change": "none", "on_senescence": "none"}
+        max_ops, err_th, renewal, life, idle = cfg
+        ctor = opts["ctor"]
+        if ctor == "defaults":
+            self.t = cls()
+        else:
+            falsy = opts["callbacks"] == "falsy"
+            on_change = self.handler("on_phase_change", "falsy" if falsy else "rec") if opts["callbacks"] in ("both", "phase", "falsy") else None
+            on_sen = self.handler("on_senescence", "falsy" if falsy else "rec") if opts["callbacks"] in ("both", "falsy") else None
+            if ctor == "positional":
+                self.t = cls(max_ops, life, idle, err_th, renewal, on_change, on_sen, opts["silent"])
+            else:
+                kw = dict(max_operations=max_ops, max_lifetime_hours=life, idle_timeout_minutes=idle, error_threshold=err_th,
+                          allow_renewal=renewal, silent=opts["silent"])
+                if on_change is not None:
+                    kw["on_phase_change"] = on_change
+                if on_sen is not None:
+                    kw["on_senescence"] = on_sen
+                self.t = cls(**kw)
+        self.guard = LockGuard(self.t, lock_factory, "Telomere")
+
+    @property
+    def stream(self):
+        return self.mode["on_phase_change"] == "rec"
+
+    def _boom(self, what):
+        e = self.exc(what)
+        self.raised.append(e)
+        raise e
+
+    def _on_change(self, o, nw, *extra):
+        self.hops.append((o.value, nw.value))
+        if self.opts.get("reads") and self.t is not None:
+            if self.ctx is not None:
+                self.ctx.count("status_reads_from_callbacks")
+            tt = self.t
             tt.get_status(); tt.get_phase(); tt.get_statistics(); tt.is_active(); tt.is_operational(); tt.get_age()
-        if nw.value in opts["raise_on"]:
-            e = HandlerBoom("on_phase_change -> %s" % nw.value)
-            if raised is not None:
-                raised.append(e)
-            raise e
+        if nw.value in self.opts["raise_on"]:
+            self._boom("on_phase_change -> %s" % nw.value)
 
-    def on_sen(reason):
-        if reads and "t" in holder:
-            holder["t"].get_status()
-        if opts["raise_sen"]:
-            e = HandlerBoom("on_senescence")
-            if raised is not None:
-                raised.append(e)
-            raise e
-    if opts["ctor"] == "defaults":
-        t = cls()
-    else:
-        kw = dict(max_operations=max_ops, max_lifetime_hours=life, idle_timeout_minutes=idle, error_threshold=err_th,
-                  allow_renewal=renewal, silent=opts["silent"])
-        if opts["callbacks"] in ("both", "phase"):
-            kw["on_phase_change"] = on_change
-        if opts["callbacks"] == "both":
-            kw["on_senescence"] = on_sen
-        t = cls(**kw)
-    holder["t"] = t
-    return t
+    def _on_sen(self, reason, *extra):
+        if self.opts.get("reads") and self.t is not None:
+            self.t.get_status()
+        if self.opts["raise_sen"]:
+            self._boom("on_senescence")
+
+    def handler(self, which, mode):
+        self.mode[which] = mode
+        if mode == "none":
+            return None
+        fn = self._on_change if which == "on_phase_change" else self._on_sen
+        return FalsyCallable(fn) if mode == "falsy" else fn
+
+    def is_ours(self, e):
+        return any(e is x for x in self.raised)
+
+    def meta(self, op):
+        """Re-configuration / duplication / read-only operations. Returns (token, detail)."""
+        k, t = op[0], self.t
+        if k == "set":
+            setattr(t, op[1], op[2])
+            return "set", op[2]
+        if k == "set_cb":
+            setattr(t, op[1], self.handler(op[1], op[2]))
+            return "set_cb", op[2]
+        if k == "reads":
+            _read_all(t)
+            return "reads", None
+        if k == "set_max":
+            ln = t.get_statistics()["telomere_length"]
+            cur, how = t.max_operations, op[1]
+            new = cur
+            if how == "double":
+                new = cur * 2
+            elif how == "plus1":
+                new = cur + 1
+            elif how == "big":
+                new = cur + 1000
+            elif how == "float":
+                new = float(cur) if cur < 2 ** 53 else cur
+            elif how == "to_len" and ln == ln and ln <= cur:
+                new = ln if ln >= 1 else 1
+            t.max_operations = new
+            return "set_max", new
+        if k == "dup":
+            try:
+                if op[1] == "copy":
+                    d = copy.copy(t)
+                elif op[1] == "deepcopy":
+                    d = copy.deepcopy(t)
+                else:
+                    d = pickle.loads(pickle.dumps(t))
+            except WouldHang:
+                raise
+            except Exception as e:  # noqa  (duplication is not promised: unsupported is fine)
+                return "dup:unsupported", type(e).__name__
+            before = _state(t)
+            self.t = d
+            self.guard.adopt(d)
+            return "dup:ok", (before, _state(d))
+        raise ValueError(k)
 
 
 def _call(t, op):
     name = op[0]
+    _CALLED.add(name)
     if name == "start":
         return t.start()
     if name == "tick":
+        if len(op) == 1:
+            _CALLED.add("tick()")
+            return t.tick()
+        if len(op) > 2:
+            _CALLED.add("tick(cost=)")
+            return t.tick(cost=op[1])
         return t.tick(op[1])
     if name == "record_error":
         return t.record_error()
@@ -355,9 +738,28 @@ def _call(t, op):
     if name == "check_timeouts":
         return t.check_timeouts()
     if name == "renew":
+        if len(op) == 1:
+            _CALLED.add("renew()")
+            return t.renew()
+        form = op[3] if len(op) > 3 else "mixed"
+        if form == "kw":
+            _CALLED.add("renew(amount=,reset_errors=)")
+            return t.renew(amount=op[1], reset_errors=op[2])
+        if form == "pos":
+            return t.renew(op[1], op[2])
+        if form == "amount-only":
+            return t.renew(op[1])
+        if form == "reset-only":
+            return t.renew(reset_errors=op[2])
         return t.renew(op[1], reset_errors=op[2])
     if name == "trigger_apoptosis":
-        return t.trigger_apoptosis("test")
+        if len(op) == 1:
+            _CALLED.add("trigger_apoptosis()")
+            return t.trigger_apoptosis()
+        if len(op) > 2:
+            _CALLED.add("trigger_apoptosis(reason=)")
+            return t.trigger_apoptosis(reason=op[1])
+        return t.trigger_apoptosis(op[1])
     if name == "terminate":
         return t.terminate()
     if name == "reset":
@@ -375,31 +777,42 @@ class Session:
 
     def __init__(self, ctx, n, cfg, opts, mclock, witness, label="", monitored=True, trace_cap=None):
         self.ctx, self.n, self.cfg, self.opts, self.clk, self.witness, self.label = ctx, n, cfg, opts, mclock, witness, label
-        self.max_ops, self.err_th, self.renewal, life, idle = cfg
+        self.max_ops, self.err_th, renewal, life, idle = cfg
+        self.renewal = bool(renewal)
+        self.bound = self.max_ops
         self.life_td = timedelta(hours=life) if life else None
         self.idle_td = timedelta(minutes=idle) if idle else None
-        self.hops = []
-        self.raised = []
-        self.holder = {}
         self.trace_cap = trace_cap
-        self.stream = opts["callbacks"] != "none" and opts["ctor"] != "defaults"
         cls = monitored_class() if monitored else __import__("operon_ai.state.telomere", fromlist=["Telomere"]).Telomere
-        self.t = make_instance(cls, cfg, opts, self.hops, self.holder, ctx, self.raised)
-        self.wrapped = wrap_all_locks(self.t, DetectingLock, "Telomere")
+        self.rig = Rig(cls, cfg, opts, ctx)
+        self.hops, self.raised = self.rig.hops, self.rig.raised
         self.started_ms = None
         self.activity_ms = None
+        self.activity_by = "start"
+        self.back_steps = []
         self.true_ticks = 0
         self.phases_seen = {"nascent"}
         self.toks = []
         self.ncalls = 0
         self.boomed = False
         self.dead = False
+        self.zone = (opts.get("tz") or (None, None))[0]
         if not opts["silent"] or opts["ctor"] == "defaults":
             ctx.count("verbose_sessions")
-        if not self.stream:
+        if not self.rig.stream:
             ctx.count("no_callback_sessions")
         if opts["ctor"] == "defaults":
             ctx.count("default_constructed_sessions")
+        if self.zone:
+            ctx.count("nonutc_zone_sessions")
+        if type(renewal) is not bool:
+            ctx.count("nonbool_renewal_flag_sessions")
+        if opts.get("exc", "HandlerBoom") != "HandlerBoom" and (opts["raise_on"] or opts["raise_sen"]):
+            ctx.count("handler_exception_type_sessions")
+
+    @property
+    def t(self):
+        return self.rig.t
 
     def viol(self, mech, what):
         self.dead = True
@@ -414,12 +827,80 @@ class Session:
             self.witness["trace_truncated"] = True
 
     def finish(self):
-        self.ctx.counters["lock_acquisitions"] = self.ctx.counters.get("lock_acquisitions", 0) + sum(w.acquisitions for w in self.wrapped)
+        g = self.rig.guard
+        self.ctx.counters["lock_acquisitions"] = self.ctx.counters.get("lock_acquisitions", 0) + g.acquisitions()
+        if g.replaced:
+            self.ctx.count("locks_replaced_by_object", g.replaced)
         self.ctx.counters["invariant_evaluations"] = _INV["n"]
+
+    def advance(self, ms):
+        """The driver moves the virtual clock; a backward step of the process's local clock is remembered."""
+        if self.zone:
+            off0 = self.clk.utc_offset()
+            self.clk.advance(ms)
+            if self.clk.utc_offset() < off0:
+                self.back_steps.append(self.clk.ms)
+                self.ctx.count("local_clock_back_steps")
+        else:
+            self.clk.advance(ms)
+
+    def meta(self, op):
+        """Operations that re-configure / duplicate / only read: the model follows the CURRENT settings."""
+        ctx, k = self.ctx, op[0]
+        p0 = self.t.get_phase().value
+        try:
+            tok, detail = self.rig.meta(op)
+        except WouldHang as e:
+            self._trace([list(op), "WOULD HANG", p0])
+            self.viol("self-deadlock:%s:%s" % (k, p0), "%s in phase %s can never return: %s re-acquired" % (k, p0, e.lock_name))
+            return False
+        except InvariantBroken as e:
+            self._trace([list(op), "INVARIANT", str(e)])
+            self.viol("length-out-of-range", "%s: %s" % (k, e))
+            return False
+        except BaseException as e:
+            self._trace([list(op), "RAISED", repr(e)])
+            self.viol("raises:%s" % (k if k != "set" else "set:%s" % op[1]), "%s raised %r" % (list(op), e))
+            return False
+        self.toks.append(tok.split(":")[0])
+        self._trace([list(op), tok, detail if k != "dup" else None])
+        if k == "set":
+            ctx.count("settings_reassigned")
+            attr, v = op[1], op[2]
+            if attr == "allow_renewal":
+                self.renewal = bool(v)
+            elif attr == "error_threshold":
+                self.err_th = v
+            elif attr == "max_lifetime":
+                self.life_td = v if v else None
+            elif attr == "idle_timeout":
+                self.idle_td = v if v else None
+        elif k == "set_max":
+            ctx.count("settings_reassigned")
+            self.max_ops = detail
+            if detail > self.bound:
+                self.bound = detail
+        elif k == "set_cb":
+            ctx.count("handlers_reassigned")
+        elif k == "dup":
+            if tok == "dup:ok":
+                ctx.count("duplicates_continued")
+                before, after = detail
+                if repr(before[:2]) != repr(after[:2]):
+                    self.viol("duplicate-differs:%s" % op[1], "the %s of a lifecycle in (phase, length) %r is in %r: the duplicate escapes the original's phase / bound" % (
+                        op[1], before[:2], after[:2]))
+                    return False
+            else:
+                ctx.count("duplicates_unsupported")
+        self.rig.guard.refresh()
+        return True
 
     def step(self, op):
         """Apply one operation and judge it. Returns False after a violation (the session stops)."""
+        if op[0] in META:
+            return self.meta(op)
         ctx, t, name = self.ctx, self.t, op[0]
+        rig = self.rig
         max_ops, err_th = self.max_ops, self.err_th
         ctx.count("calls")
         self.ncalls += 1
@@ -427,6 +908,8 @@ class Session:
             ctx.count("calls_after_handler_raised")
         if id(op) in _XIDS:
             ctx.count("extreme_argument_calls")
+        if len(op) == 1 and name in ("tick", "renew", "trigger_apoptosis") or len(op) > 2 and op[-1] in ("kw", "pos", "amount-only", "reset-only"):
+            ctx.count("calling_form_calls")
         p0 = t.get_phase().value
         s0 = t.get_statistics()
         len0 = s0["telomere_length"]
@@ -447,20 +930,19 @@ class Session:
             self._trace([name, "INVARIANT", str(e)])
             self.viol("length-out-of-range", "%s: %s" % (name, e))
             return False
-        except HandlerBoom as e:
-            if not any(e is x for x in self.raised):
+        except BaseException as e:
+            if not rig.is_ours(e):
+                self._trace([name, "RAISED", repr(e)])
                 self.viol("raises:%s" % name, "%s raised %r" % (name, e))
                 return False
             boom = True
             self.boomed = True
             ctx.count("handler_raised_calls")
-        except BaseException as e:
-            self._trace([name, "RAISED", repr(e)])
-            self.viol("raises:%s" % name, "%s raised %r" % (name, e))
-            return False
         self.toks.append("BOOM" if boom else repr(ret))
+        # ---- locks the object replaced / created during the call are wrapped again (decided by shape, not by name)
+        rig.guard.refresh()
         # ---- every call returns: a lock still held after the call means the next locking call can never return (probed, decided at the lock)
-        if any(w.locked() for w in self.wrapped):
+        if rig.guard.any_locked():
             ctx.count("lock_probes")
             try:
                 t.heartbeat()
@@ -489,7 +971,7 @@ class Session:
         if not seen and p1 != p0:
             seen = [(p0, p1)]
             chain_end = p1
-            if not self.stream:
+            if not rig.stream:
                 ok = composed_hops(name)
         elif seen and (seen[0][0] != p0 or chain_end != p1):
             if name != "reset":
@@ -517,8 +999,9 @@ class Session:
         if ("nascent", "active") in seen or (p0 == "nascent" and p1 in ("active", "senescent") and name in ("start", "tick", "record_error")):
             self.started_ms = now
             self.activity_ms = now
+            self.activity_by = "start"
         if name == "tick":
-            cost = op[1]
+            cost = op[1] if len(op) > 1 else 1
             if p0 in ("apoptotic", "terminated"):
                 ctx.count("ticks_in_terminal_phase")
                 if (not boom and ret is not False) or len1 != len0 or s1["operations_count"] != s0["operations_count"] or p1 != p0:
@@ -527,46 +1010,54 @@ class Session:
                     return False
             else:
                 self.activity_ms = now
+                self.activity_by = "tick"
             if not boom and ret is not (p1 == "active"):
                 self.viol("tick-return-value", "tick returned %r but the phase afterwards is %s" % (ret, p1))
                 return False
             if not boom and ret is True and cost >= 1:
                 self.true_ticks += 1
-                if self.true_ticks > max_ops:
-                    self.viol("hayflick-bound", "%d ticks reported True since the last renewal with max_operations=%d" % (self.true_ticks, max_ops))
+                if self.true_ticks > self.bound:
+                    self.viol("hayflick-bound", "%d ticks reported True since the last renewal with max_operations=%r" % (self.true_ticks, self.bound))
                     return False
             if len1 > len0:
                 self.viol("tick-lengthens", "tick(%r) lengthened the telomere %r -> %r" % (cost, len0, len1))
                 return False
         elif name == "heartbeat":
             self.activity_ms = now
+            self.activity_by = "heartbeat"
         elif name == "renew":
             if boom:
                 self.true_ticks = 0
+                self.bound = max_ops
                 self.activity_ms = now
             elif ret is True:
                 if not self.renewal or p0 == "terminated":
-                    self.viol("renew-not-refused", "renew succeeded with allow_renewal=%s in phase %s" % (self.renewal, p0))
+                    self.viol("renew-not-refused", "renew succeeded with allow_renewal=%r in phase %s" % (t.allow_renewal, p0))
                     return False
                 self.true_ticks = 0
+                self.bound = max_ops
                 self.activity_ms = now
             else:
                 ctx.count("renewals_refused")
+                if not self.renewal and type(t.allow_renewal) is not bool:
+                    ctx.count("nonbool_falsy_renewals_refused")
                 if p1 != p0 or len1 != len0:
                     self.viol("refused-renew-changes-state", "refused renew moved %s->%s / length %r->%r" % (p0, p1, len0, len1))
                     return False
             if (not self.renewal or p0 == "terminated") and (p1 != p0 or len1 != len0):
-                self.viol("renew-not-refused", "renew with allow_renewal=%s in phase %s changed the lifecycle (%s->%s, length %r->%r)" % (
-                    self.renewal, p0, p0, p1, len0, len1))
+                self.viol("renew-not-refused", "renew with allow_renewal=%r in phase %s changed the lifecycle (%s->%s, length %r->%r)" % (
+                    t.allow_renewal, p0, p0, p1, len0, len1))
                 return False
             if len1 < len0:
                 self.viol("renew-shortens", "renew shortened the telomere")
                 return False
         elif name == "record_error":
-            if s1["error_count"] >= err_th:
+            # the limit obliges once an error WAS recorded (a threshold of 0 with no error recorded - the user's handler raised during
+            # the auto-start, before the count - is not an exceeded limit)
+            if s1["error_count"] >= err_th and s1["error_count"] >= 1:
                 ctx.count("error_limit_forced")
                 if p1 == "active":
-                    self.viol("error-limit-not-enforced", "error_count %d >= threshold %d and still ACTIVE" % (s1["error_count"], err_th))
+                    self.viol("error-limit-not-enforced", "error_count %d >= threshold %r and still ACTIVE" % (s1["error_count"], err_th))
                     return False
         elif name == "check_timeouts":
             if p0 == "active":
@@ -576,6 +1067,10 @@ class Session:
                 idled = self.idle_td is not None and idl is not None and idl >= self.idle_td
                 if aged or idled:
                     ctx.count("timeouts_forced")
+                    if self.zone:
+                        ctx.count("timeouts_forced_in_nonutc_zone")
+                        if idled and not aged:
+                            ctx.count("idle_limit_forced_in_nonutc_zone_after:%s" % self.activity_by)
                     el = [x for (x, f) in ((age, aged), (idl, idled)) if f]
                     lim = [x for (x, f) in ((self.life_td, aged), (self.idle_td, idled)) if f]
                     if any(x >= timedelta(days=1) for x in el):
@@ -584,15 +1079,22 @@ class Session:
                         ctx.count("subsecond_timeouts_forced")
                     if any(x == y for x, y in zip(el, lim)):
                         ctx.count("boundary_timeouts_forced")
+                    # every limit that was reached had a backward step of the LOCAL clock since its reference stamp?
+                    stepped = all(any(b > ref for b in self.back_steps) for (ref, f) in ((self.started_ms, aged), (self.activity_ms, idled)) if f)
+                    if stepped:
+                        ctx.count("timeouts_forced_across_local_back_step")
                     if p1 == "active":
-                        self.viol("time-limit-not-enforced", "age/idle limit reached (aged=%s: %s of %s; idle=%s: %s of %s) and still ACTIVE" % (
-                            aged, age, self.life_td, idled, idl, self.idle_td))
+                        self.viol("time-limit-not-enforced:local-clock-stepped-back" if stepped else "time-limit-not-enforced",
+                                  "age/idle limit reached (aged=%s: %s of %s; idle=%s: %s of %s) and still ACTIVE%s" % (
+                                      aged, age, self.life_td, idled, idl, self.idle_td,
+                                      " [process zone %s; its local clock stepped back in between]" % self.zone if stepped else (" [process zone %s]" % self.zone if self.zone else "")))
                         return False
             if not boom and ret is True and p1 in ("apoptotic", "terminated"):
                 self.viol("check-timeouts-return", "check_timeouts returned True in phase %s" % p1)
                 return False
         elif name == "reset":
             self.true_ticks = 0
+            self.bound = max_ops
             self.started_ms = None
             self.activity_ms = None
         return True
@@ -602,7 +1104,9 @@ def _witness(cfg, opts, seq=None):
     w = {"config": {"max_operations": cfg[0], "error_threshold": cfg[1], "allow_renewal": cfg[2],
                     "max_lifetime_hours": cfg[3], "idle_timeout_minutes": cfg[4]},
          "options": {"silent": opts["silent"], "callbacks": opts["callbacks"], "handler_raises_on": sorted(opts["raise_on"]),
-                     "on_senescence_raises": opts["raise_sen"], "constructor": opts["ctor"], "handlers_read_getters": opts.get("reads", False)},
+                     "on_senescence_raises": opts["raise_sen"], "handler_exception_type": opts.get("exc", "HandlerBoom"),
+                     "constructor": opts["ctor"], "handlers_read_getters": opts.get("reads", False),
+                     "process_time_zone": (opts.get("tz") or ("UTC", None))[0], "clock_base_utc": (opts.get("tz") or (None, None))[1] or 1_700_000_000.0},
          "trace": []}
     if seq is not None:
         w["sequence"] = [list(o) for o in seq]
@@ -615,12 +1119,13 @@ def drive(ctx, n, cfg, seq, opts=None):
     opts = dict(opts or BASE_OPTS)
     opts["reads"] = ctx.rng("reads", n).random() < 0.35   # a third of the cases: the application's handlers read the lifecycle's public getters
     witness = _witness(cfg, opts, seq)
-    clk = MsClock()
-    with patched(clk.v, tmod), contextlib.redirect_stdout(_SINK):   # verbose lifecycles print: stdout goes to a sink for the whole session
+    clk = _clock_for(opts)
+    # verbose lifecycles print: stdout goes to a (strict UTF-8) sink for the whole session; the process zone is the session's
+    with local_zone((opts.get("tz") or (None,))[0]), patched(clk.v, tmod), contextlib.redirect_stdout(_SINK):
         s = Session(ctx, n, cfg, opts, clk, witness)
         for op in seq:
             if op[0] in ("advance", "advance_ms"):
-                clk.advance(_adv_ms(op))
+                s.advance(_adv_ms(op))
                 witness["trace"].append(["advance_ms", _adv_ms(op)])
                 continue
             if not s.step(op):
@@ -637,26 +1142,27 @@ def drive(ctx, n, cfg, seq, opts=None):
 def blind_run(cfg, opts, seq, silent):
     """The same session on the plain class without any read-only call between the operations."""
     import operon_ai.state.telomere as tmod
-    clk = MsClock()
+    clk = _clock_for(opts)
     o = dict(opts, silent=silent, reads=False)
     toks = []
-    with patched(clk.v, tmod), contextlib.redirect_stdout(_SINK):   # verbose lifecycles print: stdout goes to a sink for the whole session
-        t = make_instance(tmod.Telomere, cfg, o, [], {})
-        wrap_all_locks(t, DetectingLock, "Telomere")
+    with local_zone((opts.get("tz") or (None,))[0]), patched(clk.v, tmod), contextlib.redirect_stdout(_SINK):
+        rig = Rig(tmod.Telomere, cfg, o)
         for op in seq:
             if op[0] in ("advance", "advance_ms"):
                 clk.advance(_adv_ms(op))
                 continue
             try:
-                toks.append(repr(_call(t, op)))
+                if op[0] in META:
+                    toks.append(rig.meta(op)[0].split(":")[0])
+                else:
+                    toks.append(repr(_call(rig.t, op)))
             except WouldHang:
                 toks.append("WOULD HANG")
                 return toks, None
-            except HandlerBoom:
-                toks.append("BOOM")
             except BaseException as e:
-                toks.append("RAISED %s" % type(e).__name__)
-        return toks, _state(t)
+                toks.append("BOOM" if rig.is_ours(e) else "RAISED %s" % type(e).__name__)
+            rig.guard.refresh()
+        return toks, _state(rig.t)
 
 
 def differential(ctx, n, cfg, seq, opts, primary):
@@ -695,8 +1201,9 @@ def twin_case(ctx, n, cfg, seq, opts, orng):
     witness = {"instances": {"A": _witness(cfg, opts, seq), "B": _witness(cfg2, opts2, seq2)}, "trace": []}
     for k in ("A", "B"):
         del witness["instances"][k]["trace"]
-    clk = MsClock()
-    with patched(clk.v, tmod), contextlib.redirect_stdout(_SINK):   # verbose lifecycles print: stdout goes to a sink for the whole session
+    clk = _clock_for(opts)
+    opts2["tz"] = opts.get("tz")          # one process, one zone
+    with local_zone((opts.get("tz") or (None,))[0]), patched(clk.v, tmod), contextlib.redirect_stdout(_SINK):
         sa = Session(ctx, n, cfg, opts, clk, witness, label="A")
         sb = Session(ctx, n, cfg2, opts2, clk, witness, label="B")
         qa, qb = list(seq), list(seq2)
@@ -704,7 +1211,8 @@ def twin_case(ctx, n, cfg, seq, opts, orng):
             s, q = (sa, qa) if (qa and (not qb or orng.random() < 0.5)) else (sb, qb)
             op = q.pop(0)
             if op[0] in ("advance", "advance_ms"):
-                clk.advance(_adv_ms(op))
+                sa.advance(_adv_ms(op))
+                sb.back_steps = sa.back_steps
                 witness["trace"].append(["advance_ms", _adv_ms(op)])
                 continue
             if not s.step(op):
@@ -726,13 +1234,25 @@ def long_case(ctx, n, rng):
     live = [("tick", 1), ("tick", 0), ("tick", 2), ("record_error",), ("renew", None, True), ("renew", 2, False), ("heartbeat",),
             ("check_timeouts",), ("advance", 60.0), ("advance", 360.0), ("advance_ms", DAY_MS), ("reset",), ("start",)]
     lw = [40, 2, 3, 3, 8, 2, 3, 4, 3, 1, 0.3, 0.05, 1]
+    # round 4: settings re-assigned all along, every calling form, duplicates, a non-UTC process zone (fixed or with a backward step)
+    live += [("set", "allow_renewal", rng.choice(FALSY)), ("set", "allow_renewal", rng.choice(TRUTHY)), ("set", "silent", rng.choice([True, False, 0, 1])),
+             ("set_cb", "on_phase_change", "rec"), ("set_cb", "on_phase_change", "none"), ("set_cb", "on_senescence", rng.choice(["rec", "falsy"])),
+             ("set_max", rng.choice(["plus1", "to_len", "same"])), ("set", "error_threshold", rng.choice([1, 2, 5])), ("dup", rng.choice(["copy", "deepcopy", "pickle"])),
+             ("tick",), ("renew",), ("tick", 1, "kw"), ("reads",), ("set", "idle_timeout", rng.choice([None, timedelta(minutes=5), timedelta(hours=30)]))]
+    lw += [0.3, 1.0, 0.3, 0.2, 0.1, 0.1, 0.05, 0.1, 0.05, 3, 2, 1, 0.2, 0.1]
+    zr = rng.random()
+    if zr < 0.35:
+        opts["tz"] = (rng.choice(ZONES_WEST + ZONES_EAST), None)
+    elif zr < 0.5:
+        z, back = rng.choice(ZONES_DST)
+        opts["tz"] = (z, back - rng.randint(1, 48) * 3600.0)
     end_at = int(total * 0.85)
     ender = rng.choice([("terminate",), ("terminate",), ("trigger_apoptosis",)])
     witness = _witness(cfg, opts)
     witness["sequence"] = "long session: %d operations drawn from %s, %s after %d, then every operation kind" % (total, [list(o) for o in live], list(ender), end_at)
-    clk = MsClock()
+    clk = _clock_for(opts)
     renewals = 0
-    with patched(clk.v, tmod), contextlib.redirect_stdout(_SINK):   # verbose lifecycles print: stdout goes to a sink for the whole session
+    with local_zone((opts.get("tz") or (None,))[0]), patched(clk.v, tmod), contextlib.redirect_stdout(_SINK):
         s = Session(ctx, n, cfg, opts, clk, witness, monitored=False, trace_cap=40)
         for i in range(total):
             if i < end_at:
@@ -742,7 +1262,7 @@ def long_case(ctx, n, rng):
             else:
                 op = rng.choices(OPS[:14] + OPS[15:], k=1)[0]   # everything but reset
             if op[0] in ("advance", "advance_ms"):
-                clk.advance(_adv_ms(op))
+                s.advance(_adv_ms(op))
                 continue
             ctx.count("long_session_calls")
             if not s.step(op):
@@ -757,7 +1277,8 @@ def long_case(ctx, n, rng):
         ctx.nontrivial(("long", sorted(s.phases_seen), renewals > 100, cfg, opts["silent"], opts["callbacks"]))
 
 
-TOPS = [("tick", 1), ("tick", 2), ("record_error",), ("renew", None, True), ("trigger_apoptosis",), ("terminate",), ("start",), ("check_timeouts",)]
+TOPS = [("tick", 1), ("tick", 2), ("record_error",), ("renew", None, True), ("trigger_apoptosis",), ("terminate",), ("start",), ("check_timeouts",),
+        ("reset",), ("heartbeat",)]
 
 
 def _apply(t, op):
@@ -791,11 +1312,13 @@ def thread_case(ctx, n, rng):
         for op in pre:
             _apply(t, op)
         if wrap:
-            wrap_all_locks(t, sched.SchedLock, "Telomere")
+            # a lock the object assigns to itself during the schedule is wrapped at the assignment: the scheduler keeps control
+            guards.append(LockGuard(t, sched.SchedLock, "Telomere"))
         return t
 
     # sequential outcomes: every order-preserving merge on fresh objects
     outcomes = set()
+    guards = []
 
     def merges(pos):
         if all(pos[i] == len(threads[i]) for i in range(nthreads)):
@@ -821,6 +1344,10 @@ def thread_case(ctx, n, rng):
         sc = sched.Scheduler(policy, watchdog_s=30.0)
         sc.run([(lambda ops=ops: tuple(repr(_apply(t, op)) for op in ops)) for ops in threads])
         ctx.count("thread_schedules")
+        g = guards.pop()
+        g.refresh(force=True)
+        if g.replaced:
+            ctx.count("locks_replaced_by_object", g.replaced)
         w = dict(desc, policy=label, choices=sc.choices[:300])
         if sc.stuck:
             ctx.inconclusive("a schedule hit the wall-clock watchdog (not a verdict)")
